@@ -100,6 +100,11 @@ def grammar(rng, nps):
              [-0.5, 1.0, 1.0, 0, 90], [0.0, 1.0, 1.0, -30, 330], [0.5, 1.0, 0.0, 0, 90], np.array([1, 2, 3]), np.array([1, 2, 3], dtype=int),
              np.zeros((0, 3)), np.float64(2.0), np.int64(3), "right", "left", "up",
              "3", "1e3", " 2.5 ", "inf", "nan", b"4", np.array(2.0), np.array([2.0]), [2.0], (1.5,)]
+    # right shape, one element that float() cannot convert (TypeError / OverflowError inside the conversion, not ValueError)
+    for bad in (1 + 2j, {}, object(), {1}, 10**400, [3.0], slice(1)):
+        for k in (2, 3, 5):
+            vals.append(list(nps.uniform(0.2, 3, k - 1)) + [bad])
+        vals += [[[1.0, 2.0, 3.0], [1.0, 2.0, bad]], [[0, 0, 0], [1, 0, 0], [0, 1, 0], [0, 0, bad]], [[0, 0, 0], [1, 0, 0], [0, 1, bad]]]
     rng.shuffle(vals)
     return vals
 
